@@ -232,7 +232,17 @@ fn accessor(bytes: &[u8], op: &str) -> String {
         "ctx" => res(e.ctx(), |v| v.to_string()),
         "try_ctx" => res(e.try_ctx(), |v| v.map(|x| x.to_string()).unwrap_or("none".into())),
         "container_len" => res(e.verif_container_len(), |v| v.to_string()),
-        "is_empty" => format!("ok:{}", e.is_empty() as u8),
+        // `is_empty`, `non_empty`, `raw_data`: three views of the same fact
+        "is_empty" => {
+            let (a, b, c) = (e.is_empty(), e.non_empty().is_none(), e.raw_data().is_empty());
+            if a == b && b == c {
+                format!("ok:{}", a as u8)
+            } else {
+                "ok:inconsistent".into()
+            }
+        }
+        "tlv" => res(e.tlv(), |t| format!("{}={}", tag_tok(&t.tag), val_tok(&t.value))),
+        "total_len" => res(e.total_len(), |v| v.to_string()),
         "tree" => decode_tree_str(bytes),
         "reencode" => {
             if e.is_empty() {
@@ -338,6 +348,54 @@ fn accessor(bytes: &[u8], op: &str) -> String {
                 res(r, |el| format!("{}:{}", el.raw_data().len(), seq.verif_raw().len()))
             }
         },
+        // stack consumed by `Display` of the element (one recursion level per nesting level), measured as the span
+        // of the addresses of a local of the `fmt::Write` sink; runs in its own 64 MiB thread so that the measurement
+        // itself cannot overflow.  Corpus only (not in ACCESSORS): the value depends on the build.
+        "fmt_stack" => {
+            struct Sink(usize, usize);
+            impl std::fmt::Write for Sink {
+                fn write_str(&mut self, _s: &str) -> std::fmt::Result {
+                    let marker = 0u8;
+                    let a = &marker as *const u8 as usize;
+                    self.0 = self.0.min(a);
+                    self.1 = self.1.max(a);
+                    Ok(())
+                }
+            }
+            let data = bytes.to_vec();
+            let r = std::thread::Builder::new()
+                .stack_size(64 * 1024 * 1024)
+                .spawn(move || {
+                    use std::fmt::Write as _;
+                    let mut s = Sink(usize::MAX, 0);
+                    let ok = write!(&mut s, "{}", TLVElement::new(&data)).is_ok();
+                    (ok, s.1.saturating_sub(s.0))
+                })
+                .map(|h| h.join());
+            match r {
+                Ok(Ok((true, span))) => format!("ok:{}", span),
+                Ok(Ok((false, _))) => "e:fmt".into(),
+                _ => "panic".into(),
+            }
+        }
+        "seq_fmt" => match seq_of(&e) {
+            None => "nc".into(),
+            Some(seq) => {
+                use std::fmt::Write as _;
+                let mut s = String::new();
+                // Display of the sequence and Debug of its iterator are the same `TLVSequence::fmt`
+                let a = write!(&mut s, "{}", seq).is_ok();
+                let mut s2 = String::new();
+                let b = write!(&mut s2, "{:?}", seq.iter()).is_ok();
+                if a != b {
+                    "ok:inconsistent".into()
+                } else if a {
+                    "ok".into()
+                } else {
+                    "e:fmt".into()
+                }
+            }
+        },
         "seq_raw_value" => match seq_of(&e) {
             None => "nc".into(),
             Some(seq) => res(seq.raw_value(), |v| hex(v)),
@@ -350,7 +408,7 @@ const ACCESSORS: &[&str] = &[
     "control", "tag", "value", "raw_value", "container_len", "i8", "u8", "i16", "u16", "i32", "u32", "i64", "u64",
     "f32", "f64", "str", "utf8", "octets", "bool", "null", "is_container", "structure", "array", "list", "container",
     "confirm_anon", "ctx", "try_ctx", "is_empty", "tree", "reencode", "reencode_iter", "fmt", "iter", "tlviter",
-    "seq_raw_value",
+    "seq_raw_value", "tlv", "total_len", "seq_fmt",
 ];
 
 // ------------------------------------------------------------------ stream (b): value trees
@@ -1028,8 +1086,18 @@ fn gen_bytes(r: &mut Rng, out: &mut Out, thorough: bool) -> Vec<u8> {
     b
 }
 
-fn accessor_ops(r: &mut Rng, bytes: &[u8]) -> Vec<String> {
+fn accessor_ops(r: &mut Rng, bytes: &[u8], thorough: bool) -> Vec<String> {
     let mut ops: Vec<String> = ACCESSORS.iter().map(|s| s.to_string()).collect();
+    // the driver's list-based model of the recursive `Display` is cubic in the nesting depth: in the thorough tier
+    // (30 000 inputs, nesting to 300) the two formatting ops run on every input of at most 128 bytes and on 1 in 8
+    // of the longer ones (quick tier: on every input)
+    if thorough && bytes.len() > 128 && !r.chance(1, 8) {
+        ops.retain(|o| o != "fmt" && o != "seq_fmt");
+    }
+    // `tlv` = `tag` + `value`, `total_len` = the public name of `container_len`: 1 input in 4 in the thorough tier
+    if thorough && !r.chance(1, 4) {
+        ops.retain(|o| o != "tlv" && o != "total_len");
+    }
     // context ids present in the input + a few others
     let mut ids: Vec<u8> = vec![0, 1, 2, 255];
     for w in bytes.windows(2) {
@@ -1046,7 +1114,7 @@ fn accessor_ops(r: &mut Rng, bytes: &[u8]) -> Vec<String> {
     ops
 }
 
-const RULE: &str = "#rule stream a: one byte string per case (valid encodings of random trees; truncated; every string length field replaced, same width or widened to 2/4/8 bytes, by 0, rem-1, rem, rem+1, 2^16-1, 2^32-1, 2^32, 2^63-1, 2^63, 2^64-1 and the values around the overflow point of 1+tag+8+len; byte and end-marker mutations; nesting up to 300; random typed and uniform bytes; known shapes) x every public accessor of TLVElement/TLVSequence/iterators, capped at len+2 steps; non-trivial = at least one accessor accepts and one rejects. stream w: one value tree per case (all tag forms, all integer widths at their extremes, floats by bit pattern incl. NaN payloads, UTF-8 and octet strings with 1/2/4/8-byte length fields, nulls, nesting) written by TLVWrite and by TLV::bytes_iter, decoded back with the public accessors; non-trivial = written and decoded. stream s: derived wire structures round-tripped (32 real structures incl. signed-integer fields; 45 derive shapes: tag numbering, wrappers, signed integers of every width at the bounds of every element type, float bit patterns incl. NaN payloads / signed zeros / subnormals, [T; N] arrays, bitflags with all / no / undeclared bits), then decoded from truncated / mutated / field-permuted encodings and from arrays with items removed / added. distinct = by case text";
+const RULE: &str = "#rule stream a: one byte string per case (valid encodings of random trees; truncated; every string length field replaced, same width or widened to 2/4/8 bytes, by 0, rem-1, rem, rem+1, 2^16-1, 2^32-1, 2^32, 2^63-1, 2^63, 2^64-1 and the values around the overflow point of 1+tag+8+len; byte and end-marker mutations; nesting up to 300; random typed and uniform bytes; known shapes) x every public accessor of TLVElement/TLVSequence/iterators (incl. tlv, total_len, Display/Debug of elements and sequences), capped at len+2 steps; non-trivial = at least one accessor accepts and one rejects. stream w: one value tree per case (1 in 50: a string longer than its 1- or 2-byte length field can express, which TLVWrite::tlv must refuse; otherwise all tag forms, all integer widths at their extremes, floats by bit pattern incl. NaN payloads, UTF-8 and octet strings with 1/2/4/8-byte length fields, nulls, nesting) written by TLVWrite and by TLV::bytes_iter, decoded back with the public accessors; non-trivial = written and decoded. stream s: derived wire structures round-tripped (32 real structures incl. signed-integer fields; 45 derive shapes: tag numbering, wrappers, signed integers of every width at the bounds of every element type, float bit patterns incl. NaN payloads / signed zeros / subnormals, [T; N] arrays, bitflags with all / no / undeclared bits), then decoded from truncated / mutated / field-permuted encodings and from arrays with items removed / added. distinct = by case text";
 
 pub fn gen(a: &Args) -> String {
     watchdog_start(&a.out);
@@ -1056,7 +1124,7 @@ pub fn gen(a: &Args) -> String {
     let mut out = Out::default();
     out.buf.push_str(RULE);
     out.buf.push('\n');
-    let n_a = if a.thorough { 40_000 } else { 8_000 };
+    let n_a = if a.thorough { 30_000 } else { 8_000 };
     let n_w = if a.thorough { 12_000 } else { 3_000 };
     let n_s = if a.thorough { 8_000 } else { 2_000 };
     let mut id = 0u64;
@@ -1064,7 +1132,7 @@ pub fn gen(a: &Args) -> String {
         let mut cr = r.fork();
         let b = gen_bytes(&mut cr, &mut out, a.thorough);
         out.stat(&format!("a_len_{}", len_bucket(b.len())), 1);
-        let ops = accessor_ops(&mut cr, &b);
+        let ops = accessor_ops(&mut cr, &b, a.thorough);
         run_case(&mut out, &Case { id, kind: format!("a {}", hex(&b)), ops });
         id += 1;
     }
@@ -1073,6 +1141,36 @@ pub fn gen(a: &Args) -> String {
         let mut budget = if a.thorough { 24 } else { 10 };
         let big = i % 40 == 0;
         let tree = gen_node(&mut cr, if i % 97 == 0 { 30 } else { 5 }, false, big, true, &mut budget);
+        if i % 50 == 7 {
+            // a string that does NOT fit the length field of the element type it is written with: the fallible
+            // writer must refuse it (fix C16-writer-length-truncation); `TLV::bytes_iter` cannot (open finding,
+            // corpus only)
+            let (w, n) = if i % 500 == 57 { (2usize, 65536usize + cr.below(3) as usize) } else { (1, *cr.pick(&[256usize, 257, 300, 511, 512])) };
+            let leaf = if cr.chance(1, 2) {
+                format!("o{}:{}", w, hex(&cr.bytes(n)))
+            } else {
+                let mut u = gen_utf8(&mut cr, n);
+                while u.len() < n {
+                    u.push(b'a');
+                }
+                format!("t{}:{}", w, hex(&u))
+            };
+            let leaf = Node::Leaf(gen_tag(&mut cr, false), leaf);
+            let tree = if cr.chance(1, 2) {
+                leaf
+            } else {
+                Node::Cont(gen_tag(&mut cr, false), *cr.pick(&['S', 'A', 'L']), vec![Node::Leaf(TLVTag::Context(1), "u1:7".into()), {
+                    match leaf {
+                        Node::Leaf(_, p) => Node::Leaf(TLVTag::Context(2), p),
+                        n => n,
+                    }
+                }])
+            };
+            out.stat("w_overlong_strings", 1);
+            run_case(&mut out, &Case { id, kind: "w".into(), ops: vec![format!("write {}", node_str(&tree))] });
+            id += 1;
+            continue;
+        }
         let ts = node_str(&tree);
         let mut ops = vec![format!("write {}", ts), format!("iterwrite {}", ts)];
         if let Ok(b) = write_tree(&tree, &mut Vec::new()) {
